@@ -656,6 +656,7 @@ type c14desc struct {
 	Segs     [][]mut `json:"segments"`
 	Queries  []qd    `json:"queries"`
 	Handlers bool    `json:"handlers"`
+	Delayed  bool    `json:"delayed_gateway"` // query requests are sent only after the segment's Flush
 	Subs     []subT  `json:"subs"`
 }
 
@@ -671,7 +672,7 @@ type pubRec struct{ kind, rid string }
 
 type respRec struct {
 	sub, evt, kind int
-	ids            []string
+	val            string // Coq term of the rvalue
 }
 
 type segRec struct {
@@ -797,40 +798,85 @@ func (l nolog) Errorf(f string, v ...interface{}) {
 type wireResp struct {
 	Result *struct {
 		Collection json.RawMessage    `json:"collection"`
+		Model      json.RawMessage    `json:"model"`
 		Events     *[]json.RawMessage `json:"events"`
 	} `json:"result"`
 	Error *json.RawMessage `json:"error"`
 }
 
-// responses carrying "collection":null (FetchCollection returns a nil slice for
-// Limit == 0 and QueryHandler passes it on); read as the empty collection, counted.
+// responses carrying "collection":null (FetchCollection returned a nil slice for
+// Limit == 0 before fix 8791deb and QueryHandler passed it on); read as the
+// empty collection, counted.
 var nullCollections, nullSeen int32
 
-// parse a get / query response: kind 0 no events, 1 collection, 2 error
-func parseResp(b []byte, ok bool) (int, []string) {
+// a collection / model member: an id string or a resource reference {"rid":"..."}
+func member(b json.RawMessage) (string, bool) {
+	var s string
+	if json.Unmarshal(b, &s) == nil {
+		return s, true
+	}
+	var r struct {
+		RID *string `json:"rid"`
+	}
+	if json.Unmarshal(b, &r) == nil && r.RID != nil {
+		return *r.RID, true
+	}
+	return "", false
+}
+
+const emptyColl = "(VColl [])"
+
+// parse a get / query response: kind 0 no events, 1 collection or model, 2 error;
+// the value as a Coq rvalue term
+func parseResp(b []byte, ok bool) (int, string) {
 	if !ok {
-		return 2, nil
+		return 2, emptyColl
 	}
 	var w wireResp
 	if err := json.Unmarshal(b, &w); err != nil || w.Result == nil {
-		return 2, nil
+		return 2, emptyColl
 	}
 	if len(w.Result.Collection) > 0 {
 		if string(w.Result.Collection) == "null" {
 			atomic.AddInt32(&nullCollections, 1)
-			return 1, nil
+			return 1, emptyColl
+		}
+		var raw []json.RawMessage
+		if err := json.Unmarshal(w.Result.Collection, &raw); err != nil {
+			return 2, emptyColl
 		}
 		var ids []string
-		if err := json.Unmarshal(w.Result.Collection, &ids); err != nil {
-			return 2, nil
+		for _, m := range raw {
+			v, ok := member(m)
+			if !ok {
+				return 2, emptyColl
+			}
+			ids = append(ids, v)
 		}
-		return 1, ids
+		return 1, "(VColl " + BList(ids) + ")"
+	}
+	if len(w.Result.Model) > 0 {
+		var raw map[string]json.RawMessage
+		if err := json.Unmarshal(w.Result.Model, &raw); err != nil || raw == nil {
+			return 2, emptyColl
+		}
+		m := map[string]string{}
+		for k, x := range raw {
+			v, ok := member(x)
+			if !ok {
+				return 2, emptyColl
+			}
+			m[k] = v
+		}
+		return 1, "(VModel " + AMap(m) + ")"
 	}
 	if w.Result.Events != nil && len(*w.Result.Events) == 0 {
-		return 0, nil
+		return 0, emptyColl
 	}
-	return 2, nil
+	return 2, emptyColl
 }
+
+func itemRef(id string) string { return "t.item." + id }
 
 func firstByteRID(k []byte) (string, bool) {
 	if len(k) == 0 {
@@ -877,6 +923,7 @@ func runC14(d c14desc, dist map[string]int, impl *[]ImplViolation) Case {
 	var conn *rconn
 	var logErrs int32
 	evtCount := map[string]int{}
+	var pending []func()
 	if d.Handlers {
 		svc = res.NewService("t")
 		svc.SetLogger(nolog{&logErrs})
@@ -886,6 +933,7 @@ func runC14(d c14desc, dist map[string]int, impl *[]ImplViolation) Case {
 				return qd{L: -1}.values(), nil
 			}})
 		svc.Handle("p.$x", res.Collection, store.QueryHandler{QueryStore: e.qs,
+			Transformer: store.IDToRIDCollectionTransformer(itemRef),
 			RequestHandler: func(rname string, pp map[string]string) (url.Values, error) {
 				return qd{P: pp["x"], L: -1}.values(), nil
 			},
@@ -909,7 +957,8 @@ func runC14(d c14desc, dist map[string]int, impl *[]ImplViolation) Case {
 			QueryRequestHandler: func(rname string, pp map[string]string, q url.Values) (url.Values, string, error) {
 				return q, q.Encode(), nil
 			}})
-		svc.Handle("qp.$i", res.Collection, store.QueryHandler{QueryStore: e.qs,
+		svc.Handle("qp.$i", res.Model, store.QueryHandler{QueryStore: e.qs,
+			Transformer: store.IDToRIDModelTransformer(itemRef),
 			QueryRequestHandler: func(rname string, pp map[string]string, q url.Values) (url.Values, string, error) {
 				q2 := url.Values{}
 				for k, v := range q {
@@ -961,25 +1010,33 @@ func runC14(d c14desc, dist map[string]int, impl *[]ImplViolation) Case {
 				evtCount[rid]++
 				cur := seg
 				mu.Unlock()
-				// the gateway: one query request per client query subscribed on rid
+				// the gateway: one query request per client query subscribed on rid,
+				// at once or (delayed mode) only after the segment's Flush
 				for i, s := range d.Subs {
 					if !s.IsQ || s.RID != rid {
 						continue
 					}
 					i, s := i, s
-					gwWG.Add(1)
-					go func() {
+					ask := func() {
 						defer gwWG.Done()
 						pl, _ := json.Marshal(map[string]string{"query": s.CQ})
 						b, ok := conn.request(ev.Subject, pl)
-						kind, ids := parseResp(b, ok)
+						kind, v := parseResp(b, ok)
 						mu.Lock()
 						if !ok {
 							hang = true
 						}
-						cur.resps = append(cur.resps, respRec{i, ord, kind, ids})
+						cur.resps = append(cur.resps, respRec{i, ord, kind, v})
 						mu.Unlock()
-					}()
+					}
+					gwWG.Add(1)
+					if d.Delayed {
+						mu.Lock()
+						pending = append(pending, ask)
+						mu.Unlock()
+					} else {
+						go ask()
+					}
 				}
 			default:
 				mu.Lock()
@@ -1003,11 +1060,11 @@ func runC14(d c14desc, dist map[string]int, impl *[]ImplViolation) Case {
 				pl, _ = json.Marshal(map[string]string{"query": s.CQ})
 			}
 			b, ok := conn.request("get."+s.RID, pl)
-			kind, ids := parseResp(b, ok)
+			kind, v := parseResp(b, ok)
 			if kind == 1 {
-				out = append(out, outcomeCoq(ids, 0))
+				out = append(out, "(Some "+v+")")
 			} else {
-				out = append(out, "FErr")
+				out = append(out, "None")
 			}
 		}
 		return out
@@ -1030,6 +1087,13 @@ func runC14(d c14desc, dist map[string]int, impl *[]ImplViolation) Case {
 		mu.Unlock()
 		e.applyAll(ms)
 		e.qs.Flush()
+		mu.Lock()
+		launch := pending
+		pending = nil
+		mu.Unlock()
+		for _, f := range launch {
+			go f()
+		}
 		gwDone := make(chan struct{})
 		go func() { gwWG.Wait(); close(gwDone) }()
 		select {
@@ -1094,7 +1158,7 @@ func runC14(d c14desc, dist map[string]int, impl *[]ImplViolation) Case {
 			return a.sub < b.sub
 		})
 		for _, r := range cur.resps {
-			resps = append(resps, fmt.Sprintf("RO %s %s %d %s", Nat(r.sub), Nat(r.evt), r.kind, BList(r.ids)))
+			resps = append(resps, fmt.Sprintf("RO %s %s %d %s", Nat(r.sub), Nat(r.evt), r.kind, r.val))
 			if r.kind == 1 {
 				nRespRes++
 			} else if r.kind == 0 {
@@ -1105,9 +1169,10 @@ func runC14(d c14desc, dist map[string]int, impl *[]ImplViolation) Case {
 			List(pubs), List(cur.ar2), List(cur.ar4), List(resps), List(fr)))
 		mu.Unlock()
 	}
+	sawNull := false
 	if n := atomic.LoadInt32(&nullCollections); n > nullSeen {
 		nullSeen = n
-		*impl = append(*impl, ImplViolation{What: "store.QueryHandler sent \"collection\":null on the wire (get response or query response of a query with Limit 0: FetchCollection returns a nil slice); a RES collection must be a JSON array", Desc: d, Tags: []string{"null-collection"}})
+		sawNull = true // "collection":null on the wire (Limit 0 before fix 8791deb): counted, read as the empty collection
 	}
 	if hang {
 		*impl = append(*impl, ImplViolation{What: "a query request sent on a query event got no response (or the gateway goroutines hung)", Desc: d})
@@ -1127,7 +1192,7 @@ func runC14(d c14desc, dist map[string]int, impl *[]ImplViolation) Case {
 	}
 	var c Case
 	c.Desc = d
-	c.Term = fmt.Sprintf("C14 %s %s %s %s", List(qsT), Bool(d.Handlers), List(subsT), List(segTerms))
+	c.Term = fmt.Sprintf("C14 %s %s %s %s %s", List(qsT), Bool(d.Handlers), Bool(d.Delayed), List(subsT), List(segTerms))
 	c.Nontrivial = nAffT > 0 && nAffF > 0
 	if nilkey {
 		c.Tags = append(c.Tags, "nilkey-empty-prefix")
@@ -1135,6 +1200,10 @@ func runC14(d c14desc, dist map[string]int, impl *[]ImplViolation) Case {
 	}
 	if hasNul {
 		c.Tags = append(c.Tags, "nul-in-key")
+	}
+	if sawNull {
+		c.Tags = append(c.Tags, "null-collection")
+		dist["cases_null_collection"]++
 	}
 	dist["callbacks"] += nCbs
 	dist["events_affected_true"] += nAffT
@@ -1183,7 +1252,7 @@ func genC14(r *Rng, i int, thorough bool) c14desc {
 	// index "kb" (nil keys), empty prefix, a filter accepting the empty key
 	qs[0] = qd{I: 1, P: "", F: 1, O: 0, L: -1}
 	qs[1] = qd{I: 0, P: "", F: 0, O: 0, L: -1}
-	d := c14desc{Segs: segs, Queries: qs, Handlers: i%5 != 4}
+	d := c14desc{Segs: segs, Queries: qs, Handlers: i%5 != 4, Delayed: i%2 == 1}
 	if d.Handlers {
 		cq := func(q qd, dropI bool) string {
 			v := q.values()
@@ -1240,6 +1309,9 @@ func mainC14(o Opts) {
 			dist["histories"]++
 			if d.Handlers {
 				dist["histories_with_handlers"]++
+				if d.Delayed {
+					dist["histories_with_delayed_gateway"]++
+				}
 			}
 			for _, s := range d.Segs {
 				dist["segments"]++
@@ -1253,7 +1325,7 @@ func mainC14(o Opts) {
 	}
 	dist["responses_with_null_collection"] = int(nullCollections)
 	Emit(o, "C14", "From GoRes Require Import Run.Run_C14.", "c14case",
-		"random mutation histories (as C13) cut into segments (single mutations / runs of 1-5 / one run), QueryStore.Flush after each segment; two recording OnQueryChange callbacks that run 8 (thorough 16) index queries and Events() inside the callback; Store.OnChange reports; in 4 of 5 histories a res.Service with four store.QueryHandler resources (ordinary / query resource x without / with path parameters and AffectedResources) on a recording connection playing the gateway (query requests for every subscribed client query, fresh gets after each segment); non-trivial = some Events() call reported affected and some unaffected; distinct by (segments, queries, subscriptions)",
+		"random mutation histories (as C13) cut into segments (single mutations / runs of 1-5 / one run), QueryStore.Flush after each segment; two recording OnQueryChange callbacks that run 8 (thorough 16) index queries and Events() inside the callback; Store.OnChange reports; in 4 of 5 histories a res.Service with four store.QueryHandler resources (ordinary / query resource x without / with path parameters and AffectedResources; IDToRIDCollectionTransformer on the ordinary path-parameter collection, IDToRIDModelTransformer on the query model with a path parameter) on a recording connection playing the gateway (query requests for every subscribed client query, sent at once or - every second history - only after all mutations of the segment were indexed; fresh gets after each segment); non-trivial = some Events() call reported affected and some unaffected; distinct by (segments, queries, subscriptions)",
 		cases, dist, nil, impl, 25)
 }
 
